@@ -289,6 +289,22 @@ def run(prog: Program, res: Result, tier: str) -> None:
         elif p[0] == "alt":
             headers = {h + k for h in headers for k in p[1:]}
     header = sorted(headers)[0] if len(headers) == 1 else sorted(headers)
+    # splitting the text with str.splitlines() anywhere in the reader also
+    # splits at \x0b \x0c \x1c-\x1e \x85 \u2028 \u2029 inside the comment
+    for rf in (r, geo.methods.get("from_xyz")):
+        if rf is None:
+            continue
+        for n in ast.walk(rf.node):
+            if isinstance(n, ast.Call) and isinstance(
+                    n.func, ast.Attribute) and n.func.attr == "splitlines":
+                res.bad("X-FORMAT", f"{rf.short} splits the text with "
+                        "splitlines()", rf.loc(n),
+                        f"{rf.short}: `{norm(n, 60)}`: str.splitlines() "
+                        "breaks a comment line that contains \\x0b, \\x0c, "
+                        "\\x1c-\\x1e, \\x85, \\u2028 or \\u2029 into several "
+                        "lines; the header is then one line short and the "
+                        "tail of the comment is parsed as an atom line",
+                        instance="reader never uses str.splitlines()")
     load = None
     for n in ast.walk(r.node):
         if isinstance(n, ast.Call) and call_name(n) in ("np.loadtxt",
